@@ -1,8 +1,8 @@
 CONSTANTS
-  Devs = {}
+  Devs = {"MutOpenCallModeOnlyOnCreate"}
   Groups = {"data", "open", "ns", "pipe"}
   Drivers = {"iour", "poll", "iour_blk"}
-  MaxOps = 3
+  MaxOps = 1
   InitFiles <- Init_One
   Offsets <- Off_Narrow
   RBufs <- RB_One
@@ -25,4 +25,4 @@ CONSTANTS
   PVWBufs <- PVW_Narrow
   PVRBufs <- PVR_Narrow
 SPECIFICATION Spec
-INVARIANTS PathsAgree DevOnlyWhereNamed Sanity
+INVARIANTS PathsAgree
